@@ -73,20 +73,18 @@ Lemma example_lazy_mt :
     unbind_all Z 0 [op_x; op_y] = Ok oth
     /\ lz_flat Z base_opts false (l_members Z self_l) oth 0 = Ok (tasks, lfss)
     /\ List.length tasks = 4%nat
-    /\ forallb (nf_t Z) (l_members Z self_l) = true
-    /\ exists r, lz_mt_front Z base_opts (fn_of []) false false false self_l [op_x; op_y] (Some out_l) None [3; 1; 0; 2]%nat = MOk r
+    /\ exists r, lz_mt_front Z base_opts (fn_of []) false false self_l [op_x; op_y] (Some out_l) None [3; 1; 0; 2]%nat = MOk r
                  /\ lz_front Z base_opts (fn_of []) false false self_l [op_x; op_y] (Some out_l) None = Ok r.
 Proof.
-  do 3 eexists. split; [vm_compute; reflexivity|]. split; [vm_compute; reflexivity|]. split; [reflexivity|]. split; [reflexivity|].
+  do 3 eexists. split; [vm_compute; reflexivity|]. split; [vm_compute; reflexivity|]. split; [reflexivity|].
   eexists. split; vm_compute; reflexivity.
 Qed.
 
-(* C20-h: out= a lazily stacked tensorclass *)
-Lemma lazy_mt_tc_out_witness :
-  (exists r, lz_front Z base_opts (fn_of []) false false self_l [] (Some out_tc) None = Ok r
-             /\ lz_mt_front Z base_opts (fn_of []) true false false self_l [] (Some out_tc) None [0; 1; 2; 3]%nat = MOk r)
-  /\ lz_mt_front Z base_opts (fn_of []) false false false self_l [] (Some out_tc) None [0; 1; 2; 3]%nat = MRaised EValue.
-Proof. split; [eexists; split|]; vm_compute; reflexivity. Qed.
+(* the former witness of C20-h: out= a lazily stacked tensorclass is written by both forms *)
+Lemma lazy_mt_tc_out_agree :
+  exists r, lz_front Z base_opts (fn_of []) false false self_l [] (Some out_tc) None = Ok r
+            /\ lz_mt_front Z base_opts (fn_of []) false false self_l [] (Some out_tc) None [0; 1; 2; 3]%nat = MOk r.
+Proof. eexists; split; vm_compute; reflexivity. Qed.
 
 Lemma example_lazy_apply_ :
   exists r0 r1,
